@@ -4,6 +4,8 @@ import common
 from common import sh2
 
 LEVEL = "proof"
+# further theorem files (HEVC); each is rebuilt, re-checked and axiom-audited like C15Theorems.v
+EXTRA_THEOREM_FILES = ["C15HevcTheorems.v", "C15HevcSliceTheorems.v", "C15HevcConfTheorems.v"]
 MANIFEST = {
     "technique": "Coq proof (parser model applied to an independent serialiser of the standard's syntax) + differential "
                  "correspondence: the extracted serialiser generates NAL units from random field values, the real Go parsers "
@@ -53,10 +55,12 @@ def run(ctx):
     ]
     exe, model = build(ctx)
     pr = ctx.proofs("c15", "C15Theorems.v")
+    prs = [pr] + [ctx.proofs("c15", f) for f in EXTRA_THEOREM_FILES
+                  if os.path.exists(os.path.join(common.COQ, "c15", f))]
     d = os.path.join(common.BUILD, "c15")
     os.makedirs(d, exist_ok=True)
     # generation by the model side
-    n = ctx.n(3000, 150000)
+    n = ctx.n(2500, 150000)
     rc, gen, e = sh2("ulimit -s unlimited 2>/dev/null; exec '%s'" % model,
                      stdin=("GEN\t%d\t%d\n" % (ctx.seed, n)).encode(), timeout=3000)
     if rc != 0:
@@ -119,7 +123,8 @@ def run(ctx):
                        "mismatches": len(mism), "first_case": by_id.get(first[1] if len(first) > 1 else "", "")[:4000],
                        "model_says": mism[0][:4000]},
                       "model/implementation disagree on %d cases" % len(mism), no_input=True)
-    ctx.proof_violation_if_broken(pr, "c15 search: %d evaluations" % ctx.notes.get("search_evaluations", 0))
+    for p_ in prs:
+        ctx.proof_violation_if_broken(p_, "c15 search: %d evaluations" % ctx.notes.get("search_evaluations", 0))
     ctx.cov["rule"] = ("model-side generation: %d field-value draws through the extracted independent serialisers (every conditional "
                        "syntax branch drawn at random; ue values at powers of two and at the range ends), one in three also mutated "
                        "(truncation / bit flip / byte substitution, screened by the model for huge decoded counts) + the captured parameter "
